@@ -68,6 +68,21 @@ def generate(rng, tier):
         ents = [par, nest, app] if i % 3 else [par, nest]
         rng.shuffle(ents)
         cases.append(case('modtype%d' % i, rng.choice([4, 8]), ents))
+    # extern values typed by a short name that two visible modules define: what the name denotes is a function of the imports,
+    # not of which module was added (or resolved) first
+    for i in range(max(4, n // 10)):
+        v4 = lambda pr, al: type_def(True, 'Vec', [a_ident('copyable')] + ([a_int('align', al)] if al else []),
+                                     [field(True, 'x', ty_id(pr)), field(True, 'y', ty_id(pr))])
+        math = modent(path('math%d' % i), module(defs=[v4('f32', None)]))
+        game = modent(path('game%d' % i), module(uses=[path('math%d' % i, 'Vec')] if i % 2 else [], defs=[v4('f64', 8)],
+                                                  xvals=[xval(True, 'g_a', ty_id('Vec'), [a_int('address', 0x7F0010)]),
+                                                         xval(True, 'g_b', ty_mptr(ty_id('Vec')), [a_int('address', 0x7F0020)])]))
+        us = [path('math%d' % i, 'Vec'), path('game%d' % i, 'Vec')]
+        if i % 3 == 0: us.reverse()
+        if i % 4 == 3: us = [path('math%d' % i), path('game%d' % i)]
+        rend = modent(path('rend%d' % i), module(uses=us, xvals=[xval(True, 'g_up', ty_id('Vec'), [a_int('address', 0x7F0100)])]))
+        ents = [math, game, rend]; rng.shuffle(ents)
+        cases.append(case('xvscope%d' % i, rng.choice([4, 8]), ents))
     for c in cases:
         c.append([S('vseed'), rng.randrange(1 << 30)])
     return cases
